@@ -1,5 +1,6 @@
 import SC.Proofs.SpecIndex
 import SC.Proofs.CountIdx
+import SC.Proofs.RCountByte
 /-!
 # C12 — Count counts greedy non-overlapping matches; Cut splits around the first one
 -/
@@ -48,6 +49,20 @@ theorem cut_found (s t : Bytes) (k : Nat) (h : S.indexK s t = some k) :
     simp only [S.fruns, fdec, List.length_map, List.length_drop, S.nrunes] at this ⊢
     have := hk.2.1; simp only [S.fruns, fdec, List.length_map] at this; omega
   refine ⟨by simp [S.index, h], by simp [S.cut, h], offAt_mono s _ _ hlen⟩
+
+/-! ### Refinement: `A.Count` and `A.Cut` equal the specification
+
+For **every** pair of byte strings, both packages: the general loop (`Index`, then skip as many code points
+of `s` as the needle has, by their *decoded* widths — the pinned tree used `RuneLen` here, finding D3), the
+one-byte path (byte-count kernel + `countRune` for K/k → U+212A, S/s → U+017F; a one-byte ill-formed needle
+goes through the general path — finding D8), the empty needle; `Cut` never reaches its panic branch. -/
+
+theorem count_refines (cfg : A.Cfg) (s sub : Bytes) : A.Count cfg s sub = (S.count s sub : Nat) := A.Count_eq cfg s sub
+theorem cut_refines (cfg : A.Cfg) (s sep : Bytes) : A.Cut cfg s sep = some (S.cut s sep) := A.Cut_eq cfg s sep
+
+/-- the byte-count kernel counts exactly the ASCII members of the orbit, `countRune` the occurrences of one rune -/
+theorem kernel_count_is_orbit_count (c : UInt8) (hc : c < 0x80) (s : Bytes) :
+    A.kCount s c = (dec s).countP (fun p => A.asciiPart c p.1) := A.kCount_spec c hc s.length s (Nat.le_refl _)
 
 example : S.count [0x4B, 0x6B, 0xE2, 0x84, 0xAA] [0x6B] = 3 ∧ S.count [0x61, 0x61, 0x61] [0x41, 0x61] = 1 ∧
     S.cut [0x78, 0xE2, 0x84, 0xAA, 0x79] [0x4B] = ((0, 1), (4, 1), true) := by decide +kernel
